@@ -3,7 +3,7 @@ from registry_common import COMMON_ASSUME
 ENTRY = dict(
         title="No received frame stalls the pipeline; controller requests are always answered",
         design_ref="DESIGN.md section 6 / C09",
-        prop_modules=["C09", "C09Producer", "C09Fanout"],
+        prop_modules=["C09", "C09Producer", "C09Fanout", "C09Pipe"],
         technique="Lean 4 pool machine (read queue, unfinished counter, n symmetric consumers, per-frame class and 'handling raises' input bit) "
                   "with a conservation invariant proved for all frame sequences and all consumer schedules + correspondence with a real "
                   "AsyncProtocol on a fake transport under a virtual loop + Lean judge C09.spec on what the implementation showed",
@@ -32,7 +32,10 @@ ENTRY = dict(
             "unfinished = 0 at quiescence / shutdown can complete": "theorem (balanced_at_quiescence for the read queue; C09Producer.write_balance and shutdown_can_complete for the write queue: both counters balanced after any frame sequence and any write faults; frames still queued for writing with no producer are finding F1/C12, not claimed) + correspondence (shutdown() completes under the virtual loop)",
             "nothing is lost between the reader and the consumers, however many frames pile up while the consumers are held up":
                 "theorem (conservation: every arrival is queued; C09Producer.enqueued_exactly_delivered) + correspondence (bursts of 35..2200 frames in one chunk during the first device creation; 40 / 150-frame streams into the read queue with no consumer)",
-            "no consumer dies, including more raising frames than consumers": "theorem (no_consumer_dies, never_stalls)",
+            "composition producer -> read queue -> consumers -> device entry -> device, replies -> write queue -> producer -> transport (one machine, all schedules)":
+                "theorem (C09Pipe.pool_projection: the composed machine projects onto the pool machine, so every C09 theorem applies; handled_by_the_device: every received frame whose handling does not raise is handled exactly once and by THE entry of its sender's address in the device map; device_stable; replies_conserved: written ++ still queued = replies queued, in order; requests_answered_on_the_wire: after the producer's write cycles the transport carries exactly one reply per answerable request, each addressed to its requester; both_queues_drain: both queues of the SAME run empty, unfinished = 0) "
+                "+ correspondence (driver op c09pipe on every C09 run: (frame, device-of-address) pairs and the device map; get_device_entry is atomic in this machine: that concurrent callers end with one object per address is C10's theorem)",
+            "no consumer dies, including more raising frames than consumers": "theorem (no_consumer_dies; never_stalls (possibility) and the inevitability form: enabled_step_measure (every real consumer move lowers 2|queue|+|inHand| by one), not_quiescent_enabled / can_always_continue (no deadlock), enabled_run_bounded, inevitably_quiescent (every run of `measure` real consumer moves, in whichever order, empties the pool))",
             "no received frame stalls the pipeline: handling of every frame comes back (texts of every shape up to the wire limit)":
                 "correspondence (string-bearing payloads from shape families; every step under a CPU watchdog: a step that does not come back within 5 s CPU + 20 ms per frame is reported with the frame as failing input)",
             "sub-device delivery: block i of a message with M slots is dispatched exactly once, on the object of index i; at most one object per index; bindings never change":
